@@ -150,7 +150,13 @@ impl BlobFile {
         frag_map.get(&self.id()).is_some_and(|x| {
             let stale_bytes = x.bytes;
             let all_bytes = self.0.meta.total_uncompressed_bytes;
-            stale_bytes == all_bytes
+
+            // NOTE: Also compare the number of blobs: a blob with an empty value
+            // takes up no bytes, but may still be referenced
+            let stale_items = x.len as u64;
+            let all_items = self.0.meta.item_count;
+
+            stale_bytes == all_bytes && stale_items == all_items
         })
     }
 }
